@@ -43,7 +43,12 @@ def build(H, tier, seed):
 
 
 def standins(tier, seed):
-    return K.symcoef_jobs('C05', ['hodge', 'unhodge', 'polarity', 'unpolarity', 'rp'], tier, seed, extra_configs=CUSTOM)
+    jobs = K.symcoef_jobs('C05', ['hodge', 'unhodge', 'polarity', 'unpolarity', 'rp'], tier, seed, extra_configs=CUSTOM)
+    jobs.append({'name': 'dualkind', 'bound': '11 signatures with r = 0, 1, 2, 3: auto selection and explicit kinds of dual()/undual()',
+                 'job': {'kind': 'dualkind', 'module': 'standins.jobs5',
+                         'configs': [dict(p=2), dict(p=3), dict(p=1, q=1), dict(p=2, q=0, r=1), dict(p=3, q=0, r=1), dict(p=1, q=1, r=1),
+                                     dict(p=1, q=0, r=2), dict(p=0, q=0, r=2), dict(p=2, q=0, r=3), dict(p=1, q=1, r=2), dict(name='2DPGA')]}})
+    return jobs
 
 
 replay = K.replay_operator
